@@ -182,6 +182,36 @@ def compare(ctx, fam, reg, script, status, cur, expansions, nrefs, order=None, e
                 got = ContractInterface.from_micheline(copy.deepcopy(src), ec).to_micheline()
             except Exception as e:   # noqa
                 got = ('raised', type(e).__name__, str(e)[:100])
+            if got == base:
+                # the other loaders of the same script with the same context: Michelson text, a file, a URL (the HTTP library is stubbed at its boundary)
+                import os, requests
+                from pytezos.michelson.format import micheline_to_michelson
+                text = micheline_to_michelson(copy.deepcopy(src))
+                path = os.path.join(ctx.wd, 'c33_script.tz')
+                with open(path, 'w') as f:
+                    f.write(text)
+
+                class _Resp:
+                    status_code = 200
+                    encoding = 'utf-8'
+
+                    def __init__(self, t):
+                        self.text, self.content = t, t.encode()
+                real_get = requests.get
+                requests.get = lambda url, **kw: _Resp(text)
+                try:
+                    for how, load in (('from_michelson', lambda: ContractInterface.from_michelson(text, ec)), ('from_file', lambda: ContractInterface.from_file(path, ec)),
+                                      ('from_url', lambda: ContractInterface.from_url('http://c33.invalid/script.tz', ec))):
+                        try:
+                            g2 = load().to_micheline()
+                        except Exception as e:   # noqa
+                            g2 = ('raised', type(e).__name__, str(e)[:100])
+                        if g2 != base:
+                            bad('interface-' + how, 'raises-' + g2[1] if isinstance(g2, tuple) else 'wrong-script',
+                                'ContractInterface.%s(<the script as text>, context).to_micheline() gave %s\nfrom the expansion: %s' % (how, g2, base))
+                            break
+                finally:
+                    requests.get = real_get
             if got != base:
                 bad('interface', 'raises-' + got[1] if isinstance(got, tuple) else 'wrong-script',
                     'ContractInterface.from_micheline(script, context).to_micheline() gave %s\nfrom the expansion: %s' % (got, base))
